@@ -450,6 +450,25 @@ func attack(kp hx.KeyPair, c *chain, cred, other *gabi.Credential, last *gabi.Pr
 	}
 	ok := p.Verify(kp.PK, ctx, nonce, false)
 	res.Count(fmt.Sprintf("attack:%s:accepted=%v", kind, ok))
+	// the same content in objects with a history: the ProofD (and its non-revocation part) that verified the honest proof
+	// are overwritten field by field with the manipulated content and verified again
+	if host := clone(last); host.Verify(kp.PK, ctx, nonce, false) || hx.D10Ambiguous(host, revIdx) {
+		q := p
+		if host.NonRevocationProof != nil && q.NonRevocationProof != nil {
+			hx.Overwrite(host.NonRevocationProof, q.NonRevocationProof)
+			q.NonRevocationProof = host.NonRevocationProof
+		}
+		hx.Overwrite(host, q)
+		if ok2 := host.Verify(kp.PK, ctx, nonce, false); ok2 != ok && !hx.D10Ambiguous(host, revIdx) {
+			d := hx.M{"attack": kind}
+			for k, v := range det {
+				d[k] = v
+			}
+			res.Violation("verdict-depends-on-object-history", fmt.Sprintf("the manipulated proof (%s) is judged %v in fresh objects but %v in objects that verified the honest proof before", kind, ok, ok2), d)
+			return
+		}
+		res.Count("attack:reused-object-agrees")
+	}
 	if ok {
 		d := hx.M{"attack": kind}
 		for k, v := range det {
